@@ -35,7 +35,9 @@ def run(rep, tier, seed):
             if tier == 'thorough' or what in ('drop', 'partial', 'clear'):
                 scen.append(('%s-%s' % (what, order), n, 'thread'))
     nrect = 300000 if tier == 'quick' else 1000000
-    scen += [('boolean-int', nrect, 'main'), ('boolean-dif', nrect, 'main'), ('boolean-int', nrect // 3, 'thread')]
+    scen += [('boolean-int', nrect, 'main'), ('boolean-dif', nrect, 'main'), ('boolean-int', nrect // 3, 'thread'),
+             ('boolean-intdesc', 2 * nrect, 'main'), ('boolean-intmix', nrect, 'main'), ('boolean-intdesc', nrect // 2, 'thread'),
+             ('boolean-intmix', nrect // 2, 'thread')]
     t0 = time.time()
     with ThreadPoolExecutor(max_workers=6) as ex:
         res = list(ex.map(run_child, scen))
